@@ -38,6 +38,10 @@ class _Undefined:
 UNDEFINED = _Undefined()
 
 
+# An RFC 6901 array index, plus negative indices, which are non-standard.
+RE_ARRAY_INDEX = re.compile(r"0|-?[1-9][0-9]*")
+
+
 class JSONPointer:
     """Identify a single, specific value in JSON-like data, as per RFC 6901.
 
@@ -108,17 +112,16 @@ class JSONPointer:
         )[1:]
 
     def _index(self, s: str) -> Union[str, int]:
-        # Reject non-zero ints that start with a zero.
-        if len(s) > 1 and s.startswith("0"):
+        # Only canonical decimal integers are array indices. `int()` alone
+        # would also accept "+1", " 1", "1_0" and non-ASCII digits, which are
+        # member names.
+        if not RE_ARRAY_INDEX.fullmatch(s):
             return s
 
-        try:
-            index = int(s)
-            if index < self.min_int_index or index > self.max_int_index:
-                raise JSONPointerIndexError("index out of range")
-            return index
-        except ValueError:
-            return s
+        index = int(s)
+        if index < self.min_int_index or index > self.max_int_index:
+            raise JSONPointerIndexError("index out of range")
+        return index
 
     def _getitem(self, obj: Any, key: Any) -> Any:  # noqa: PLR0912
         try:
@@ -159,7 +162,7 @@ class JSONPointer:
                     index = self._index(key)
                     if isinstance(index, int):
                         try:
-                            return getitem(obj, int(key))
+                            return getitem(obj, index)
                         except IndexError as index_err:
                             raise JSONPointerIndexError(
                                 f"index out of range: {key}"
